@@ -118,6 +118,10 @@ const warnStartDelim = "HELM_ERR_START"
 const warnEndDelim = "HELM_ERR_END"
 const recursionMaxNums = 1000
 
+// tplRecursionKey is the entry of the included-names counters under which nested 'tpl' calls are counted
+// (not a possible template name of a chart file).
+const tplRecursionKey = "\x00tpl"
+
 var warnRegex = regexp.MustCompile(warnStartDelim + `((?s).*)` + warnEndDelim)
 
 func warnWrap(warn string) string {
@@ -147,6 +151,14 @@ func includeFun(t *template.Template, includedNames map[string]int) func(string,
 // defined by their enclosing contexts.
 func tplFun(parent *template.Template, includedNames map[string]int, strict bool) func(string, interface{}) (string, error) {
 	return func(tpl string, vals interface{}) (string, error) {
+		// Nested 'tpl' calls are bounded like nested 'include's: a value that calls tpl on itself (directly
+		// or through an include) ends in an error instead of exhausting the stack.
+		if includedNames[tplRecursionKey] > recursionMaxNums {
+			return "", errors.Wrapf(fmt.Errorf("unable to execute template"), "rendering template has too deeply nested tpl calls")
+		}
+		includedNames[tplRecursionKey]++
+		defer func() { includedNames[tplRecursionKey]-- }()
+
 		t, err := parent.Clone()
 		if err != nil {
 			return "", errors.Wrapf(err, "cannot clone template")
